@@ -3084,6 +3084,7 @@ static void AssembleFile_ExitPass(void) {
                 FirstOutputTag ? 1 : 0);
     }
 #endif
+    LabelReset();
     UnsetCPU();
     ClearLocStack();
     ClearStacks();
